@@ -196,6 +196,7 @@ func mkInitOrder(tracks int, progressive bool, uniq uint32, order int) (ftyp, mo
 	for i := 0; i < tracks; i++ {
 		init.AddEmptyTrack(uint32(1000*(i+1)), kinds[i%3], "und")
 	}
+	decoyTrex(init)
 	init.Moov.Mvhd.CreationTime = uint64(uniq)
 	if progressive {
 		stts := init.Moov.Trak.Mdia.Minf.Stbl.Stts
@@ -204,6 +205,19 @@ func mkInitOrder(tracks int, progressive bool, uniq uint32, order int) (ftyp, mo
 	}
 	init.Ftyp = mp4.NewFtyp("cmfc", uniq, []string{"dash", "iso6"})
 	return encodeBox(init.Ftyp), encodeBox(init.Moov)
+}
+
+// decoyTrex: every fragment the harness writes signals duration, size and flags itself (trun or tfhd), so the trex
+// defaults must never be used: they carry values that are wrong for every sample.
+func decoyTrex(init *mp4.InitSegment) {
+	if init.Moov.Mvex == nil {
+		return
+	}
+	for _, tx := range init.Moov.Mvex.Trexs {
+		tx.DefaultSampleDuration = 7777
+		tx.DefaultSampleSize = 3
+		tx.DefaultSampleFlags = 0x01010000
+	}
 }
 
 func mkStyp(uniq uint32) []byte {
@@ -631,13 +645,25 @@ func (g *gen) fragment(tracks int, base []uint64, seg, frag int, randomDur bool)
 		randomDur = false
 		fs.optimize = true
 	}
+	// zero is a legitimate duration: a track whose samples all last 0 ticks gets a tfhd that SAYS default duration 0
+	// (flag present, value 0) once the common value is moved out of the trun - not the same as a tfhd without default
+	zeroTrack := -1
+	if fs.optimize && g.r.Intn(4) == 0 {
+		zeroTrack = g.r.Intn(tracks)
+	}
 	for t := 0; t < tracks; t++ {
 		n := 1 + g.r.Intn(3)
+		if t == zeroTrack {
+			n = 2 + g.r.Intn(2)
+		}
 		d := make([]uint32, n)
 		for j := range d {
-			if randomDur {
+			switch {
+			case t == zeroTrack:
+				d[j] = 0
+			case randomDur:
 				d[j] = uint32(1 + g.r.Intn(50))
-			} else {
+			default:
 				d[j] = uint32(10 * (t + 1))
 			}
 		}
